@@ -186,7 +186,7 @@ func (c *Ctx) confirm(opts ExploreOpts, do func([]int) Exec, prefix []int, x Exe
 		}
 	}
 	v := x.Viol
-	c.Violate(v.Signature, v.What, map[string]any{"label": opts.Label, "prefix": trim(full), "case": v.Replay})
+	c.Violate(v.Signature, v.What, map[string]any{"label": opts.Label, "prefix": trim(full), "case": v.Replay, "early_timers": opts.Cfg.EarlyTimers})
 }
 
 func trim(p []int) []int {
@@ -261,10 +261,16 @@ func (c *Ctx) ExploreSlow(label any, base vsched.Config, offsets []int, run func
 					c.EngineError("slow-thread violation %q of %v (thread %d from %d) not reproducible", y.Viol.Signature, label, t, off)
 					continue
 				}
-				c.Violate(y.Viol.Signature, y.Viol.What+fmt.Sprintf(" [thread %d demoted from step %d]", t, off), map[string]any{"label": label, "slow_thread": t, "slow_from": off, "case": y.Viol.Replay})
+				c.Violate(y.Viol.Signature, y.Viol.What+fmt.Sprintf(" [thread %d demoted from step %d]", t, off), map[string]any{"label": label, "slow_thread": t, "slow_from": off, "case": y.Viol.Replay, "early_timers": base.EarlyTimers, "eager_timers": base.EagerTimers})
 			}
 		}
 	}
+}
+
+// ExploreSlowEarly is ExploreSlow with one-shot timers firing as early as they
+// can (vsched.Config.EagerTimers): a slow thread while time passes quickly.
+func (c *Ctx) ExploreSlowEarly(label any, run func(cfg vsched.Config) Exec) {
+	c.ExploreSlow(label, vsched.Config{EagerTimers: true}, []int{0, 100}, run)
 }
 
 // CfgFromReplay rebuilds the scheduler configuration recorded with a
@@ -274,9 +280,11 @@ func CfgFromReplay(raw []byte) vsched.Config {
 		Prefix     []int `json:"prefix"`
 		SlowThread *int  `json:"slow_thread"`
 		SlowFrom   int   `json:"slow_from"`
+		Early      bool  `json:"early_timers"`
+		Eager      bool  `json:"eager_timers"`
 	}
 	_ = json.Unmarshal(raw, &w)
-	cfg := vsched.Config{Prefix: w.Prefix}
+	cfg := vsched.Config{Prefix: w.Prefix, EarlyTimers: w.Early, EagerTimers: w.Eager}
 	if w.SlowThread != nil {
 		cfg.Slow = map[int]bool{*w.SlowThread: true}
 		cfg.SlowFrom = w.SlowFrom
